@@ -572,6 +572,13 @@ impl Order {
         Ok(())
     }
 
+    /// Overwrite the recorded builder fee, for the solver-based checks in `/verif`
+    /// (`--cfg gmsol_verif`): used to show that recording a fee changes nothing else.
+    #[cfg(gmsol_verif)]
+    pub fn verif_restore_builder_fee(&mut self, amount: u64) {
+        self.builder_fee_amount = amount;
+    }
+
     /// Process GT.
     /// CHECK: the order must have been successfully executed.
     #[inline(never)]
